@@ -36,7 +36,7 @@ def o_time(case, obs):
             return None
         if t < prev:
             return "cmd %d (%s): time decreased from %d to %d" % (j, c[0], prev, t)
-        if c[0] in ("pe", "pq", "ps", "se", "ss", "cn", "rs", "so") and t != prev:
+        if c[0] in ("pe", "pq", "ps", "se", "ss", "cn", "ca", "ck", "rs", "so") and t != prev:
             return "cmd %d (%s) changed the time from %d to %d" % (j, c[0], prev, t)
         if c[0] == "su" and res == "ok":
             tgt = c[1][1] if c[1][0] == "a" else prev + c[1][1]
@@ -188,7 +188,14 @@ def ref_driver_events(case, obs):
                     first = False
                 if slot is not None:
                     keys[slot] = {"group": keys.get(("grp", slot), [])}
-        elif c[0] == "cn":
+        elif c[0] == "ck":
+            # slot b receives a clone of the key of slot a: both designate the same action
+            if c[1] in keys:
+                keys[c[2]] = keys[c[1]]
+            else:
+                keys.pop(c[2], None)
+        elif c[0] in ("cn", "ca"):
+            # explicit cancellation, or drop of the key turned into an auto-cancelling key
             ev = keys.pop(c[1], None)
             if ev is not None:
                 if "group" in ev:
